@@ -44,6 +44,8 @@ for T in $TARGETS; do
         C="out/fuzz/${T}_$V"
         rm -rf "$C"; mkdir -p "$C/corpus" "$C/artifacts"
         cp fuzz/seeds/* "$C/corpus/" 2>/dev/null
+        # C01 ("never panics or aborts"): keep the case in flight on disk so that a process death can be attributed
+        if [ "$ID" = C01 ]; then export VERIF_JOURNAL_DIR="$ROOT/$C/journal"; else unset VERIF_JOURNAL_DIR; fi
         ( "$BIN" "$C/corpus" -runs="$RUNS" -seed="$SEED" -max_len=4096 -len_control=0 -dict=fuzz/dict.txt \
               -max_total_time="$MAXT" -rss_limit_mb=4096 -timeout=60 -print_final_stats=1 \
               -artifact_prefix="$C/artifacts/" >"$C/log.txt" 2>&1; echo $? >"$C/rc" ) &
@@ -51,6 +53,26 @@ for T in $TARGETS; do
     done
 done
 wait $PIDS
+
+# C01: the target died without an oracle report. Replay the journalled in-flight case(s) in a fresh
+# process each; one that kills its process again is the violation (prints the VIOLATION line).
+abort_witness() {   # $1 = run directory
+    local c="$1" f out rc dst found=1
+    for f in "$c"/journal/inflight_*.json; do
+        [ -f "$f" ] || continue
+        out="$( (exec 2>/dev/null; RUST_BACKTRACE=0 timeout --signal=KILL 900 harness/target/checked/vcheck replay "$f" 2>&1) )"; rc=$?
+        case $rc in 0|1|2|124|137) continue ;; esac
+        echo "$out" | grep -q "overflowed its stack" && continue
+        mkdir -p out/violations
+        dst="out/violations/C01_abort_fuzz_$(md5sum "$f" | cut -c1-16).json"
+        cp "$f" "$dst"
+        echo "  signature: C01/process abort (the case in flight when the process died)"
+        echo "  actual: exit status $rc: $(echo "$out" | tail -2 | tr '\n' ' ' | cut -c1-300)"
+        echo "VIOLATION property=C01 replay=$ROOT/$dst"
+        found=0
+    done
+    return $found
+}
 
 # ---- collect ------------------------------------------------------------------------------------
 RC=0; EXEC=0; CORPUS=0; SAMPLES=""
@@ -67,6 +89,9 @@ for T in $TARGETS; do
             grep "^FUZZ-VIOLATION" "$C/log.txt" | sort -u | while read -r _ prop replay rest; do
                 echo "VIOLATION $prop $replay"
             done
+            RC=1
+        elif [ "$rc" != 0 ] && [ "$ID" = C01 ] && ! grep -qE "overflowed its stack|out-of-memory|ALARM: working on the last Unit" "$C/log.txt" \
+             && abort_witness "$C"; then
             RC=1
         elif [ "$rc" != 0 ]; then
             # crash without an oracle report: a panic escaped catch (abort), OOM, timeout: not a verdict
